@@ -136,36 +136,39 @@ theorem C12_loop (nowNs : Int) (inp : Nat → Value) (refid : Option Nat) (e0 : 
       simpa using this
     · rw [hc]; exact C12d.holds_from refid _ s
 
-/-- **C12 (daemon half) and C13 on ONE iteration of the loop body** of the current source, from any loop state whose
+/-- **C12 (daemon half) and C13 on ONE TURN of the loop** (`Rs.findLoop`, `Rs.turnIs`) of the current source, from any loop-top state whose
     `last_tracking_data` is what the specification's ghost says (`last` = the `Instant` at which the latest Tracking
     reply was accepted, `tStart − 5 s` when there was none), for all inputs of the iteration (`it`), every fuel
-    `≥ 60`: there are events `evs`, a message `m` and a new poller state such that the loop goes on (`next`) from
-    the state with `evs` appended to the log and one input consumed per event — or panics, when `m` is the model's
-    `panic` —; at most the one message `m` is sent; `m` satisfies the C13 clauses for this iteration; the
+    `≥ 60`: there are events `evs`, a message `m` and a new poller state such that the turn panics (when `m` is the model's
+    `panic`), or ends the loop (`recv_timeout` returned `Ok(ThreadAbort)`), or goes on from the top state with the new
+    poller state — with `evs` appended to the log and one input consumed per event —; at most the one message `m` is sent; `m` satisfies the C13 clauses for this iteration; the
     observation log of `evs` starts with the MONOTONIC_COARSE read (6) followed by the query (−1) and, with `m`,
     satisfies the C12 oracle (a data message carries `it.asOf`, the value of that first read); the ghost relation
     holds again afterwards -/
 theorem C12_C13_iteration (e : IterEnv) (s : PollerState) (it : PollIter) (refid : Option Nat)
     (tStart : Int) (last : Option Int) (hghost : s.lastGood = last.getD (tStart - GRACE_NS))
-    (nowNs : Int) (inp : Nat → Value) (log : List Value) (pos : Nat) (c : Expr) (body : List Stmt)
-    (hfw : findWhile Code.fn_chrony_poller__run_clock_error_bound_poller.body = some (c, body))
+    (nowNs : Int) (inp : Nat → Value) (log : List Value) (pos : Nat) (pre : List Stmt) (c : Expr) (body : List Stmt)
+    (hfl : findLoop Code.fn_chrony_poller__run_clock_error_bound_poller.body = some (pre, c, body))
     (hother : e.other ≠ "ReplyBody::Tracking") (hsend : e.sendRes = okUnit)
     (hin : inputsAt inp pos ((IterIn.trace refid s ⟨it, e⟩).map (pollEvInput e)))
-    (N : Nat) (hN : 60 ≤ N) (next : St → Res) :
+    (K : Nat) (hK : 60 ≤ K) :
     ∃ (evs : List Value) (m : PollMsg) (s' : PollerState),
-      ((evalBlock N (CodeTiePoller.ctxP nowNs inp) CodeTiePoller.frP body (pollerLoopSt e true s refid log pos)).popTo 5).loopNext next
-        = (if m = .panic then .panic
-           else next (pollerLoopSt e (!e.isAbort) s' refid (log ++ evs) (pos + evs.length))) ∧
+      turnIs (CodeTiePoller.ctxP nowNs inp) CodeTiePoller.frP c body K
+        (evalWhile (K + 2) (CodeTiePoller.ctxP nowNs inp) CodeTiePoller.frP c body
+          (CodeTiePoller.topP nowNs inp pre e s refid log pos))
+        (if m = .panic then .panic
+         else if e.isAbort = true then .done (log ++ evs) (pos + evs.length)
+         else .next (CodeTiePoller.topP nowNs inp pre e s' refid (log ++ evs) (pos + evs.length))) ∧
       sentOf evs = (if m = .panic then [] else [pollMsgValue m]) ∧
       C13.HoldsIter tStart refid last it m = true ∧
       (obsLogOf evs).take 2 = [6, -1] ∧
       C12d.HoldsIter it.asOf (obsLogOf evs) m = true ∧
       s'.lastGood = (C13.accept last it).getD (tStart - GRACE_NS) := by
   refine ⟨(IterIn.trace refid s ⟨it, e⟩).map (pollEvValue e), (it.step refid s).2, (it.step refid s).1, ?_, ?_, ?_, ?_, ?_, ?_⟩
-  · have := CodeTiePoller.iteration_eq e s it.asOf it.reply it.tReply it.tGrace refid it.file nowNs inp log pos c body
-      hfw hother hsend hin N hN next
-    rw [this, List.length_map]
-    rfl
+  · have := CodeTiePoller.iteration_eq e s it.asOf it.reply it.tReply it.tGrace refid it.file nowNs inp log pos pre c
+      body hfl hother hsend hin K hK
+    rw [List.length_map]
+    exact this
   · exact iter_sent e refid s ⟨it, e⟩
   · exact C13.holdsIter_step tStart refid last s it hghost
   · rw [iter_obs e refid s ⟨it, e⟩]
